@@ -239,6 +239,9 @@ pub enum Cps {
         bias: u32,
         members: Vec<u32>,
     },
+    /// code point bits set but the sparse bit set is the explicit empty set: a single header byte
+    /// (tree height 0) with branch factor code `bf_code` (0..=3 = BF 2/4/8/32)
+    Empty { bias_kind: u8, bias: u32, bf_code: u8 },
 }
 
 #[derive(Clone, Debug, PartialEq, Eq, Hash, Serialize, Deserialize)]
@@ -337,9 +340,9 @@ pub fn encode_t2(t: &T2) -> Enc2 {
         entry_starts.push(w.len());
         let cp_bits = match &e.cps {
             Cps::None => 0u8,
-            Cps::Set { bias_kind: 0, .. } => 0b01,
-            Cps::Set { bias_kind: 1, .. } => 0b10,
-            Cps::Set { .. } => 0b11,
+            Cps::Set { bias_kind: 0, .. } | Cps::Empty { bias_kind: 0, .. } => 0b01,
+            Cps::Set { bias_kind: 1, .. } | Cps::Empty { bias_kind: 1, .. } => 0b10,
+            Cps::Set { .. } | Cps::Empty { .. } => 0b11,
         };
         let flags = (e.fds as u8)
             | ((e.children.is_some() as u8) << 1)
@@ -388,6 +391,14 @@ pub fn encode_t2(t: &T2) -> Enc2 {
             let b = if *bias_kind == 0 { 0 } else { *bias };
             let rel: BTreeSet<u32> = members.iter().map(|m| m - b).collect();
             w.bytes(&sparse_bit_set_bf4(&rel));
+        }
+        if let Cps::Empty { bias_kind, bias, bf_code } = &e.cps {
+            match bias_kind {
+                0 => {}
+                1 => w.u16(*bias as u16),
+                _ => w.u24(*bias),
+            }
+            w.u8(*bf_code & 3); // height 0
         }
     }
     if let Some(s) = &t.string_data {
@@ -654,7 +665,7 @@ fn union_len(mut segs: Vec<(i32, i32)>) -> i64 {
 
 fn e2_members(e: &E2) -> &[u32] {
     match &e.cps {
-        Cps::None => &[],
+        Cps::None | Cps::Empty { .. } => &[],
         Cps::Set { members, .. } => members,
     }
 }
